@@ -1,7 +1,7 @@
 #!/bin/sh
 # every stored mutant against the check of its property; prints MISSED lines for undetected ones
 cd /verif
-for set in seeded seeded2 seeded3 seeded4 seeded5 seeded6 seeded7; do
+for set in seeded seeded2 seeded3 seeded4 seeded5 seeded6 seeded7 seeded8; do
   for d in $set/C*; do
     p=$(basename $d)
     cp evidence/$p.json /tmp/evidence_$p.json 2>/dev/null
